@@ -70,7 +70,7 @@ let () =
           let p = parse (Array.of_list (split_ws line)) in
           let offs = offenders p in
           String.concat " " (List.map (fun (id, k) -> string_of_int (int_of_nat id) ^ ":" ^ kind_str k) offs)
-          ^ "\t" ^ String.concat " " (List.map b2s [rule_ok p; rule_flow p; rule_names p; rule_labels p; rule_consts p; rule_switch p])
+          ^ "\t" ^ String.concat " " (List.map b2s [rule_ok p; rule_flow p; rule_names p; rule_labels p; rule_consts p; rule_switch p; rule_ok_full p; rule_labels_unique p; rule_goto_stays_in_defer p])
         with
         | Parse m -> "!parse " ^ m
         | e -> "!exn " ^ Printexc.to_string e
